@@ -73,6 +73,13 @@ class Cache:
         if cached.attributes.index() != route.attributes.index():
             return False
 
+        # the label stack is not part of the index (the prefix identifies the route, RFC 8277) but it is part of what
+        # was announced: the same prefix with another label is a new announcement, it was dropped as a duplicate
+        cached_labels = getattr(cached.nlri, 'labels', None)
+        route_labels = getattr(route.nlri, 'labels', None)
+        if not (cached_labels == route_labels):
+            return False
+
         # Use route.nexthop (nexthop is stored in Route, not NLRI)
         # Use getattr for safety since some NLRIs may not have nexthop
         try:
